@@ -11,6 +11,7 @@ mod c09_conn;
 mod c10;
 mod c10_conn;
 mod c11;
+mod c11_after;
 mod c12;
 mod c13_stream;
 mod c14;
